@@ -582,6 +582,9 @@ def run(ctx):
     ctx.ob("R10.15", "left neighbour of a range, evaluated", not bad15, site=A.where(u.function("rtosc_scan_arg_val")), detail={"layouts": n15, "mismatches": bad15[:4]},
            what="the scanner counts a printed range on from the wrong value: %s" % bad15[:3])
 
+    # ---- R10.16: the checker on printed text in which a string stands in front of a range (shared with C11 R11.14)
+    C11.left_neighbour_checker(ctx, u, "R10.16")
+
 
 def _inside10(root, node):
     nid = node.get("id")
